@@ -1,5 +1,7 @@
 import SemverProofs.Props.C12
 import SemverProofs.Lemmas.ParseWF
+import SemverProofs.Lemmas.NpmTables
+import SemverModel.RangeFmt
 /-!
 # The range parser on printed versions and printed comparators (towards C13)
 -/
@@ -50,10 +52,20 @@ theorem stripV_digit {A rest : List Char} {n : Nat} (hA : NumText A n) : stripV 
     · rename_i t heq; simp at heq; exact absurd heq.1 (digit_ne_wild ha).2.2.2
     · rfl
 
+theorem head_digit_not_blank' {A rest : List Char} (hA : A.all isDigit = true) (hne : A ≠ []) :
+    ∀ c, (A ++ rest).head? = some c → isBlank c = false := by
+  intro c hc
+  cases A with
+  | nil => exact absurd rfl hne
+  | cons a as =>
+    simp at hc; subst hc
+    simp only [List.all_cons, Bool.and_eq_true] at hA
+    exact isDigit_not_blank hA.1
+
 theorem dropBlanks_digit {A rest : List Char} {n : Nat} (hA : NumText A n) : dropBlanks (A ++ rest) = A ++ rest := by
   have hne := hA.1
   have hd : A.all isDigit = true := by rw [← all_digit_eq]; exact hA.2.1
-  have := dropBlanks_append [] (A ++ rest) (by simp) (head_digit_not_blank hd hne)
+  have := dropBlanks_append [] (A ++ rest) (by simp) (head_digit_not_blank' hd hne)
   simpa using this
 
 /-- what may follow a printed version inside a printed range: end of input, a blank or `|` -/
@@ -84,11 +96,14 @@ theorem partialVersion_render (v : Version) (hc : C12.canon v) (rest : List Char
     | cons i is =>
       refine Or.inr ⟨renderIds (i :: is), by simp, ?_⟩
       exact C12.idsText_render (i :: is) (by simp) (by rw [← hb]; exact h5)
-  generalize hPdef : (if v.pre.isEmpty then [] else '-' :: renderIds v.pre) = P at hP
-  generalize hQdef : (if v.build.isEmpty then [] else '+' :: renderIds v.build) = Q at hQ
+  obtain ⟨P, hPdef⟩ : ∃ P, P = (if v.pre.isEmpty then [] else '-' :: renderIds v.pre) := ⟨_, rfl⟩
+  obtain ⟨Q, hQdef⟩ : ∃ Q, Q = (if v.build.isEmpty then [] else '+' :: renderIds v.build) := ⟨_, rfl⟩
+  rw [← hPdef] at hP
+  rw [← hQdef] at hQ
   have hrender : v.render ++ rest =
       renderNat v.major ++ '.' :: (renderNat v.minor ++ '.' :: (renderNat v.patch ++ (P ++ (Q ++ rest)))) := by
-    simp [Version.render, renderCore, hPdef, hQdef]
+    simp only [Version.render, renderCore, List.append_assoc, List.cons_append]
+    rw [← hPdef, ← hQdef]
   rw [hrender]
   -- after the patch digits comes `-`, `+`, or what follows the version
   have hnd : ∀ d, (P ++ (Q ++ rest)).head? = some d → isDigit d = false := by
@@ -120,5 +135,590 @@ theorem partialVersion_render (v : Version) (hc : C12.canon v) (rest : List Char
   simp only [Option.isSome_some, if_true]
   rw [extras_append hP hQ (extrasFollow_of_versionFollow hr)]
   simp
+
+end Semver
+
+namespace Semver
+open Pred Bound Spec
+
+/-- what follows a printed comparator inside a printed range -/
+def CompFollow (rest : List Char) : Prop :=
+  rest = [] ∨ (∃ t, rest = ' ' :: t) ∨ (∃ t, rest = '|' :: '|' :: t)
+
+theorem CompFollow.versionFollow {rest : List Char} (h : CompFollow rest) : versionFollow rest := by
+  intro c hc
+  rcases h with rfl | ⟨t, rfl⟩ | ⟨t, rfl⟩
+  · simp at hc
+  · simp at hc; exact Or.inl hc.symm
+  · simp at hc; exact Or.inr hc.symm
+
+theorem CompFollow.atEnd {rest : List Char} (h : CompFollow rest) : atEnd rest = true := by
+  rcases h with rfl | ⟨t, rfl⟩ | ⟨t, rfl⟩ <;> simp [Semver.atEnd, isBlank]
+
+theorem render_head_digit (v : Version) : ∃ c t, v.render = c :: t ∧ isDigit c = true := by
+  have h1 := render_ne_nil v.major
+  have h2 := all_digits_render v.major
+  cases h : renderNat v.major with
+  | nil => exact absurd h h1
+  | cons c cs =>
+    rw [h] at h2
+    simp at h2
+    refine ⟨c, (v.render).tail, ?_, h2.1⟩
+    simp only [Version.render, renderCore, h, List.cons_append, List.tail_cons]
+
+theorem partialVersion_none_of_head {s : List Char} (c : Char) (t : List Char) (hs : s = c :: t)
+    (h1 : c ≠ 'v') (h2 : isBlank c = false) (h3 : isDigit c = false) (h4 : c ≠ 'x' ∧ c ≠ 'X' ∧ c ≠ '*') :
+    partialVersion s = none := by
+  subst hs
+  unfold partialVersion
+  have e1 : stripV (c :: t) = c :: t := by
+    unfold stripV; split
+    · rename_i u heq; simp at heq; exact absurd heq.1 h1
+    · rfl
+  have e2 : dropBlanks (c :: t) = c :: t := by
+    have := dropBlanks_append [] (c :: t) (by simp) (by intro d hd; simp at hd; subst hd; exact h2)
+    simpa using this
+  simp only [e1, e2]
+  have e3 : component (c :: t) = none := by
+    unfold component
+    split
+    · rename_i u heq; simp at heq; exact absurd heq.1 h4.1
+    · rename_i u heq; simp at heq; exact absurd heq.1 h4.2.1
+    · rename_i u heq; simp at heq; exact absurd heq.1 h4.2.2
+    · unfold number
+      have : (span isDigit (c :: t)).1 = [] := by simp [span, h3]
+      simp [this]
+  rw [e3]
+
+theorem hyphen_none_of_op {s : List Char} (c : Char) (t : List Char) (hs : s = c :: t)
+    (hc : c = '>' ∨ c = '<') : hyphen s = none := by
+  have hpv : partialVersion s = none := by
+    apply partialVersion_none_of_head c t hs <;> rcases hc with rfl | rfl <;> decide
+  unfold hyphen
+  simp only [hpv]
+  have : blanks1 s = none := by
+    subst hs
+    unfold blanks1
+    have : isBlank c = false := by rcases hc with rfl | rfl <;> decide
+    simp [this]
+  rw [this]
+
+/-- the full partial of a version -/
+def fullPartial (v : Version) : Partial := ⟨some v.major, some v.minor, some v.patch, v.pre, v.build⟩
+
+theorem fullPartial_toVersion (v : Version) : (fullPartial v).toVersion = v := by
+  simp [fullPartial, Partial.toVersion]
+
+/-- `simple` on a printed operator comparator -/
+theorem simple_op (opText : List Char) (op : Operation) (v : Version) (hc : C12.canon v) (rest : List Char)
+    (hr : CompFollow rest)
+    (hop : (opText = ['>', '='] ∧ op = .ge) ∨ (opText = ['>'] ∧ op = .gt) ∨
+           (opText = ['<', '='] ∧ op = .le) ∨ (opText = ['<'] ∧ op = .lt)) :
+    simple (opText ++ (v.render ++ rest)) = (primitiveSet op (fullPartial v), rest) := by
+  obtain ⟨d, t, hd, hdig⟩ := render_head_digit v
+  have hne : d ≠ '=' := by intro h; subst h; revert hdig; decide
+  have hoper : operation (opText ++ (v.render ++ rest)) = some (op, v.render ++ rest) := by
+    rcases hop with ⟨rfl, rfl⟩ | ⟨rfl, rfl⟩ | ⟨rfl, rfl⟩ | ⟨rfl, rfl⟩
+    · rfl
+    · rw [hd]
+      show operation ('>' :: d :: (t ++ rest)) = _
+      unfold operation
+      split
+      · rename_i u heq; simp at heq; exact absurd heq.1 hne
+      · rename_i u heq; simp at heq; rw [← heq]; rfl
+      · rename_i u heq; simp at heq
+      · rename_i u heq; simp at heq
+      · rename_i u heq; simp at heq
+      · rename_i h1 h2 _ _ _; exact absurd rfl (h2 _)
+    · rfl
+    · rw [hd]
+      show operation ('<' :: d :: (t ++ rest)) = _
+      unfold operation
+      split
+      · rename_i u heq; simp at heq
+      · rename_i u heq; simp at heq
+      · rename_i u heq; simp at heq
+      · rename_i u heq; simp at heq; exact absurd heq.1 hne
+      · rename_i u heq; simp at heq; rw [← heq]; rfl
+      · rename_i _ _ _ _ h5; exact absurd rfl (h5 _)
+  have hhy : hyphen (opText ++ (v.render ++ rest)) = none := by
+    rcases hop with ⟨rfl, _⟩ | ⟨rfl, _⟩ | ⟨rfl, _⟩ | ⟨rfl, _⟩
+    · exact hyphen_none_of_op '>' _ rfl (Or.inl rfl)
+    · exact hyphen_none_of_op '>' _ rfl (Or.inl rfl)
+    · exact hyphen_none_of_op '<' _ rfl (Or.inr rfl)
+    · exact hyphen_none_of_op '<' _ rfl (Or.inr rfl)
+  have hdb : dropBlanks (v.render ++ rest) = v.render ++ rest := by
+    rw [hd]
+    have := dropBlanks_append [] (d :: t ++ rest) (by simp)
+      (by intro c hc'; simp at hc'; subst hc'; exact isDigit_not_blank hdig)
+    simpa using this
+  have hprim : primitive (opText ++ (v.render ++ rest)) = some (primitiveSet op (fullPartial v), rest) := by
+    unfold primitive
+    rw [hoper]
+    simp only
+    rw [hdb, partialVersion_render v hc rest hr.versionFollow]
+    rfl
+  unfold simple
+  rw [hhy, hprim]
+  simp [terminated, hr.atEnd]
+
+/-- what follows a printed alternative -/
+def AltFollow (rest : List Char) : Prop := rest = [] ∨ ∃ t, rest = '|' :: '|' :: t
+
+theorem AltFollow.compFollow {rest : List Char} (h : AltFollow rest) : CompFollow rest := by
+  rcases h with rfl | ⟨t, rfl⟩
+  · exact Or.inl rfl
+  · exact Or.inr (Or.inr ⟨t, rfl⟩)
+
+theorem AltFollow.blanks1_none {rest : List Char} (h : AltFollow rest) : blanks1 rest = none := by
+  rcases h with rfl | ⟨t, rfl⟩ <;> simp [blanks1, isBlank]
+
+/-- `simple` on a printed exact version (an alternative by itself) -/
+theorem simple_exact (v : Version) (hc : C12.canon v) (rest : List Char) (hr : AltFollow rest) :
+    simple (v.render ++ rest) = (BoundSet.exact v, rest) := by
+  obtain ⟨d, t, hd, hdig⟩ := render_head_digit v
+  have hpv := partialVersion_render v hc rest hr.compFollow.versionFollow
+  have hhy : hyphen (v.render ++ rest) = none := by
+    unfold hyphen
+    simp only [hpv, hr.blanks1_none]
+  have hprim : primitive (v.render ++ rest) = none := by
+    unfold primitive
+    have : operation (v.render ++ rest) = none := by
+      rw [hd]
+      simp only [List.cons_append]
+      have h1 : d ≠ '>' := by intro h; subst h; revert hdig; decide
+      have h2 : d ≠ '=' := by intro h; subst h; revert hdig; decide
+      have h3 : d ≠ '<' := by intro h; subst h; revert hdig; decide
+      unfold operation
+      split
+      · rename_i u heq; simp at heq; exact absurd heq.1 h1
+      · rename_i u heq; simp at heq; exact absurd heq.1 h1
+      · rename_i u heq; simp at heq; exact absurd heq.1 h2
+      · rename_i u heq; simp at heq; exact absurd heq.1 h3
+      · rename_i u heq; simp at heq; exact absurd heq.1 h3
+      · rfl
+    rw [this]
+  have hpart : partialP (v.render ++ rest) = some (BoundSet.exact v, rest) := by
+    unfold partialP
+    rw [hpv]
+    simp only [partialSet, fullPartial_toVersion]
+    rfl
+  unfold simple
+  rw [hhy, hprim, hpart]
+  simp [terminated, hr.compFollow.atEnd]
+
+end Semver
+
+namespace Semver
+open Pred Bound Spec
+
+def predCanon : Pred → Prop
+  | inc v => C12.canon v
+  | exc v => C12.canon v
+  | unb => True
+
+/-- the intervals whose printed form parses back: well-formed, canonical bound versions, at least
+one real bound -/
+structure Printable (s : BoundSet) : Prop where
+  shape : ∃ p q, s = ⟨up q, lo p⟩ ∧ p.valid ∧ q.valid ∧ nonEmpty p q ∧ predCanon p ∧ predCanon q ∧
+    ¬ (p = unb ∧ q = unb)
+
+theorem rangeTail_none {s : List Char} (h : blanks1 s = none) : rangeTail s = ([], s) := by
+  rw [rangeTail]
+  split
+  · rfl
+  · rename_i r hr; rw [h] at hr; cases hr
+
+theorem rangeTail_some {s r : List Char} (h : blanks1 s = some r) :
+    rangeTail s = ((simple r).1 :: (rangeTail (simple r).2).1, (rangeTail (simple r).2).2) := by
+  rw [rangeTail]
+  split
+  · rename_i hn; rw [h] at hn; cases hn
+  · rename_i r' hr
+    rw [h] at hr
+    cases hr
+    rfl
+
+theorem rangeTail_altFollow {rest : List Char} (h : AltFollow rest) : rangeTail rest = ([], rest) := by
+  rw [rangeTail]
+  have := h.blanks1_none
+  split
+  · rfl
+  · rename_i r hr; rw [this] at hr; cases hr
+
+theorem foldSets_one (s : BoundSet) : foldSets [some s] = [s] := by
+  simp [foldSets]
+
+theorem canon_valid {v : Version} (h : C12.canon v) : (inc v).valid ∧ (exc v).valid := by
+  obtain ⟨h1, h2, h3, _⟩ := h
+  constructor <;> simp [Pred.valid, Bound.isValid, h1, h2, h3]
+
+theorem maxLo_unb_r (p : Pred) : maxLo p unb = p := by
+  unfold maxLo
+  cases p <;> simp [Bound.lt, cmpBound]
+
+theorem minUp_unb_l (q : Pred) : minUp unb q = q := by
+  unfold minUp
+  cases q <;> simp [Bound.lt, cmpBound]
+
+theorem blanks1_space (t : List Char) (c : Char) (hc : isBlank c = false) :
+    blanks1 (' ' :: c :: t) = some (c :: t) := by
+  unfold blanks1
+  have : dropBlanks (c :: t) = c :: t := by
+    have := dropBlanks_append [] (c :: t) (by simp) (by intro d hd; simp at hd; subst hd; exact hc)
+    simpa using this
+  simp [isBlank, this]
+
+/-- **one printed alternative parses back** to an interval equal to it as a value (`PartialEq`, i.e.
+up to build metadata of an exact version) and with the same bounds membership and gate -/
+theorem rangeP_render (s : BoundSet) (hs : Printable s) (t : List Char) (ht : s.render = some t)
+    (rest : List Char) (hr : AltFollow rest) :
+    ∃ s', rangeP (t ++ rest) = ([s'], rest) ∧ s'.beq s = true ∧ Printable s' ∧
+      s'.render = some t ∧ ∀ v, s'.within v = s.within v ∧ s'.gate v = s.gate v := by
+  obtain ⟨p, q, rfl, vp, vq, hne, cp, cq, hnb⟩ := hs.shape
+  have self : ∀ (x : BoundSet) (hx : Printable x) (hxr : x.render = some t),
+      ∃ s', ([x], rest) = ([s'], rest) ∧ s'.beq x = true ∧ Printable s' ∧ s'.render = some t ∧
+        ∀ v, s'.within v = x.within v ∧ s'.gate v = x.gate v := by
+    intro x hx hxr
+    refine ⟨x, rfl, ?_, hx, hxr, fun v => ⟨rfl, rfl⟩⟩
+    obtain ⟨p', q', rfl, _⟩ := hx.shape
+    rw [beq_mk]
+    constructor
+    · cases q' <;> simp [predEqv] <;> exact ⟨le_self _, le_self _⟩
+    · cases p' <;> simp [predEqv] <;> exact ⟨le_self _, le_self _⟩
+  have one : ∀ (opText : List Char) (op : Operation) (v : Version), C12.canon v →
+      ((opText = ['>', '='] ∧ op = .ge) ∨ (opText = ['>'] ∧ op = .gt) ∨
+        (opText = ['<', '='] ∧ op = .le) ∨ (opText = ['<'] ∧ op = .lt)) →
+      rangeP (opText ++ (v.render ++ rest)) = (foldSets [primitiveSet op (fullPartial v)], rest) := by
+    intro opText op v hv hop
+    unfold rangeP
+    rw [simple_op opText op v hv rest hr.compFollow hop]
+    simp only
+    rw [rangeTail_altFollow hr]
+  have two : ∀ (o1 : List Char) (op1 : Operation) (v1 : Version) (o2 : List Char) (op2 : Operation) (v2 : Version),
+      C12.canon v1 → C12.canon v2 →
+      ((o1 = ['>', '='] ∧ op1 = .ge) ∨ (o1 = ['>'] ∧ op1 = .gt)) →
+      ((o2 = ['<', '='] ∧ op2 = .le) ∨ (o2 = ['<'] ∧ op2 = .lt)) →
+      rangeP (o1 ++ (v1.render ++ (' ' :: (o2 ++ (v2.render ++ rest))))) =
+        (foldSets [primitiveSet op1 (fullPartial v1), primitiveSet op2 (fullPartial v2)], rest) := by
+    intro o1 op1 v1 o2 op2 v2 h1 h2 hop1 hop2
+    unfold rangeP
+    rw [simple_op o1 op1 v1 h1 _ (Or.inr (Or.inl ⟨_, rfl⟩))
+      (by rcases hop1 with h | h; exact Or.inl h; exact Or.inr (Or.inl h))]
+    simp only
+    have hb : blanks1 (' ' :: (o2 ++ (v2.render ++ rest))) = some (o2 ++ (v2.render ++ rest)) := by
+      rcases hop2 with ⟨rfl, _⟩ | ⟨rfl, _⟩ <;> exact blanks1_space _ '<' (by decide)
+    rw [rangeTail_some hb]
+    rw [simple_op o2 op2 v2 h2 rest hr.compFollow
+      (by rcases hop2 with h | h; exact Or.inr (Or.inr (Or.inl h)); exact Or.inr (Or.inr (Or.inr h)))]
+    simp only
+    rw [rangeTail_altFollow hr]
+  -- the sets the tables produce for full partials
+  have pge : ∀ v, primitiveSet .ge (fullPartial v) = BoundSet.atLeast (inc v) := fun v => by
+    simp [primitiveSet, fullPartial, Partial.toVersion]
+  have pgt : ∀ v, primitiveSet .gt (fullPartial v) = BoundSet.atLeast (exc v) := fun v => by
+    simp [primitiveSet, fullPartial, Partial.toVersion]
+  have ple : ∀ v, primitiveSet .le (fullPartial v) = BoundSet.atMost (inc v) := fun v => by
+    simp [primitiveSet, fullPartial, Partial.toVersion]
+  have plt : ∀ v, primitiveSet .lt (fullPartial v) = BoundSet.atMost (exc v) := fun v => by
+    simp [primitiveSet, fullPartial]
+  have foldTwo : ∀ (P Q : Pred), P.valid → Q.valid → P ≠ unb → Q ≠ unb → nonEmpty P Q →
+      foldSets [BoundSet.atLeast P, BoundSet.atMost Q] = [⟨up Q, lo P⟩] := by
+    intro P Q hP hQ hPn hQn hN
+    have a : BoundSet.atLeast P = some ⟨up unb, lo P⟩ :=
+      new_of_nonEmpty hP valid_unb (by cases P <;> simp [nonEmpty])
+    have b : BoundSet.atMost Q = some ⟨up Q, lo unb⟩ :=
+      new_of_nonEmpty valid_unb hQ (by cases Q <;> simp [nonEmpty])
+    rw [a, b]
+    simp only [foldSets, List.filterMap_cons, List.filterMap_nil, id, List.foldl_cons, List.foldl_nil,
+      Option.bind_some]
+    rw [intersect_mk, maxLo_unb_r, minUp_unb_l, new_of_nonEmpty hP hQ hN]
+  have foldOneLo : ∀ (P : Pred), P.valid → foldSets [BoundSet.atLeast P] = [⟨up unb, lo P⟩] := by
+    intro P hP
+    have a : BoundSet.atLeast P = some ⟨up unb, lo P⟩ :=
+      new_of_nonEmpty hP valid_unb (by cases P <;> simp [nonEmpty])
+    rw [a, foldSets_one]
+  have foldOneUp : ∀ (Q : Pred), Q.valid → foldSets [BoundSet.atMost Q] = [⟨up Q, lo unb⟩] := by
+    intro Q hQ
+    have b : BoundSet.atMost Q = some ⟨up Q, lo unb⟩ :=
+      new_of_nonEmpty valid_unb hQ (by cases Q <;> simp [nonEmpty])
+    rw [b, foldSets_one]
+  cases p with
+  | unb =>
+    cases q with
+    | unb => exact absurd ⟨rfl, rfl⟩ hnb
+    | inc v =>
+      simp only [BoundSet.render, Option.some.injEq] at ht
+      subst ht
+      have := one ['<', '='] .le v cq (Or.inr (Or.inr (Or.inl ⟨rfl, rfl⟩)))
+      simp only [List.cons_append, List.nil_append] at this ⊢
+      rw [this, ple, foldOneUp _ vq]
+      exact self _ hs (by simp [BoundSet.render])
+    | exc v =>
+      simp only [BoundSet.render, Option.some.injEq] at ht
+      subst ht
+      have := one ['<'] .lt v cq (Or.inr (Or.inr (Or.inr ⟨rfl, rfl⟩)))
+      simp only [List.cons_append, List.nil_append] at this ⊢
+      rw [this, plt, foldOneUp _ vq]
+      exact self _ hs (by simp [BoundSet.render])
+  | inc v =>
+    cases q with
+    | unb =>
+      simp only [BoundSet.render, Option.some.injEq] at ht
+      subst ht
+      have := one ['>', '='] .ge v cp (Or.inl ⟨rfl, rfl⟩)
+      simp only [List.cons_append, List.nil_append] at this ⊢
+      rw [this, pge, foldOneLo _ vp]
+      exact self _ hs (by simp [BoundSet.render])
+    | inc v2 =>
+      simp only [BoundSet.render] at ht
+      by_cases hb : v.beq v2 = true
+      · rw [if_pos hb] at ht
+        simp only [Option.some.injEq] at ht
+        subst ht
+        -- exact version: parsed back as `exact v`
+        have hx : rangeP (v.render ++ rest) = (foldSets [BoundSet.exact v], rest) := by
+          unfold rangeP
+          rw [simple_exact v cp rest hr]
+          simp only
+          rw [rangeTail_altFollow hr]
+        rw [hx]
+        have he : BoundSet.exact v = some ⟨up (inc v), lo (inc v)⟩ :=
+          new_of_nonEmpty vp vp (le_self v)
+        rw [he, foldSets_one]
+        have hvv := (beq_iff v v2).mp hb
+        refine ⟨_, rfl, ?_, ⟨⟨inc v, inc v, rfl, vp, vp, le_self v, cp, cp, by simp⟩⟩, ?_, ?_⟩
+        · rw [beq_mk]; exact ⟨hvv, le_self v, le_self v⟩
+        · simp [BoundSet.render, Version.beq]
+        · intro w
+          constructor
+          · rw [Bool.eq_iff_iff, within_mk, within_mk]
+            simp only [memLo, memUp]
+            constructor
+            · intro ⟨a, b⟩; exact ⟨a, by grind⟩
+            · intro ⟨a, b⟩; exact ⟨a, by grind⟩
+          · rw [gate_mk, gate_mk]
+            simp only [gBound]
+            simp only [Version.beq, Bool.and_eq_true, beq_iff_eq] at hb
+            obtain ⟨⟨⟨e1, e2⟩, e3⟩, e4⟩ := hb
+            simp [Version.isPre, sameTuple, e1, e2, e3, e4]
+      · rw [if_neg hb] at ht
+        simp only [Option.some.injEq] at ht
+        subst ht
+        have := two ['>', '='] .ge v ['<', '='] .le v2 cp cq (Or.inl ⟨rfl, rfl⟩) (Or.inl ⟨rfl, rfl⟩)
+        simp only [List.cons_append, List.nil_append, List.append_assoc] at this ⊢
+        rw [this, pge, ple, foldTwo _ _ vp vq (by simp) (by simp) hne]
+        exact self _ hs (by simp [BoundSet.render, hb])
+    | exc v2 =>
+      simp only [BoundSet.render, Option.some.injEq] at ht
+      subst ht
+      have := two ['>', '='] .ge v ['<'] .lt v2 cp cq (Or.inl ⟨rfl, rfl⟩) (Or.inr ⟨rfl, rfl⟩)
+      simp only [List.cons_append, List.nil_append, List.append_assoc] at this ⊢
+      rw [this, pge, plt, foldTwo _ _ vp vq (by simp) (by simp) hne]
+      exact self _ hs (by simp [BoundSet.render])
+  | exc v =>
+    cases q with
+    | unb =>
+      simp only [BoundSet.render, Option.some.injEq] at ht
+      subst ht
+      have := one ['>'] .gt v cp (Or.inr (Or.inl ⟨rfl, rfl⟩))
+      simp only [List.cons_append, List.nil_append] at this ⊢
+      rw [this, pgt, foldOneLo _ vp]
+      exact self _ hs (by simp [BoundSet.render])
+    | inc v2 =>
+      simp only [BoundSet.render, Option.some.injEq] at ht
+      subst ht
+      have := two ['>'] .gt v ['<', '='] .le v2 cp cq (Or.inr ⟨rfl, rfl⟩) (Or.inl ⟨rfl, rfl⟩)
+      simp only [List.cons_append, List.nil_append, List.append_assoc] at this ⊢
+      rw [this, pgt, ple, foldTwo _ _ vp vq (by simp) (by simp) hne]
+      exact self _ hs (by simp [BoundSet.render])
+    | exc v2 =>
+      simp only [BoundSet.render, Option.some.injEq] at ht
+      subst ht
+      have := two ['>'] .gt v ['<'] .lt v2 cp cq (Or.inr ⟨rfl, rfl⟩) (Or.inr ⟨rfl, rfl⟩)
+      simp only [List.cons_append, List.nil_append, List.append_assoc] at this ⊢
+      rw [this, pgt, plt, foldTwo _ _ vp vq (by simp) (by simp) hne]
+      exact self _ hs (by simp [BoundSet.render])
+
+end Semver
+
+namespace Semver
+open Pred Bound Spec
+
+theorem boundSetsTail_none {s : List Char} (h : logicalOr s = none) : boundSetsTail s = ([], s) := by
+  rw [boundSetsTail]
+  split
+  · rfl
+  · rename_i r hr; rw [h] at hr; cases hr
+
+theorem boundSetsTail_some {s r : List Char} (h : logicalOr s = some r) :
+    boundSetsTail s = ((rangeP r).1 :: (boundSetsTail (rangeP r).2).1, (boundSetsTail (rangeP r).2).2) := by
+  rw [boundSetsTail]
+  split
+  · rename_i hn; rw [h] at hn; cases hn
+  · rename_i r' hr
+    rw [h] at hr
+    cases hr
+    rfl
+
+/-- a printed interval starts with an operator or a digit: never with a blank -/
+theorem render_head_not_blank (s : BoundSet) (hs : Printable s) (t : List Char) (ht : s.render = some t) :
+    ∃ c u, t = c :: u ∧ isBlank c = false := by
+  obtain ⟨p, q, rfl, _, _, _, _, _, hnb⟩ := hs.shape
+  cases p with
+  | unb =>
+    cases q with
+    | unb => exact absurd ⟨rfl, rfl⟩ hnb
+    | inc v => simp only [BoundSet.render, Option.some.injEq] at ht; subst ht; exact ⟨_, _, rfl, by decide⟩
+    | exc v => simp only [BoundSet.render, Option.some.injEq] at ht; subst ht; exact ⟨_, _, rfl, by decide⟩
+  | inc v =>
+    cases q with
+    | unb => simp only [BoundSet.render, Option.some.injEq] at ht; subst ht; exact ⟨_, _, rfl, by decide⟩
+    | inc v2 =>
+      simp only [BoundSet.render] at ht
+      split at ht <;> simp only [Option.some.injEq] at ht <;> subst ht
+      · obtain ⟨d, u, hd, hdig⟩ := render_head_digit v
+        exact ⟨d, u, hd, isDigit_not_blank hdig⟩
+      · exact ⟨_, _, rfl, by decide⟩
+    | exc v2 => simp only [BoundSet.render, Option.some.injEq] at ht; subst ht; exact ⟨_, _, rfl, by decide⟩
+  | exc v =>
+    cases q with
+    | unb => simp only [BoundSet.render, Option.some.injEq] at ht; subst ht; exact ⟨_, _, rfl, by decide⟩
+    | inc v2 => simp only [BoundSet.render, Option.some.injEq] at ht; subst ht; exact ⟨_, _, rfl, by decide⟩
+    | exc v2 => simp only [BoundSet.render, Option.some.injEq] at ht; subst ht; exact ⟨_, _, rfl, by decide⟩
+
+theorem logicalOr_bars (t : List Char) (c : Char) (u : List Char) (ht : t = c :: u) (hc : isBlank c = false) :
+    logicalOr ('|' :: '|' :: t) = some t := by
+  unfold logicalOr
+  have h1 : dropBlanks ('|' :: '|' :: t) = '|' :: '|' :: t := by
+    have := dropBlanks_append [] ('|' :: '|' :: t) (by simp) (by intro d hd; simp at hd; subst hd; decide)
+    simpa using this
+  have h2 : dropBlanks t = t := by
+    subst ht
+    have := dropBlanks_append [] (c :: u) (by simp) (by intro d hd; simp at hd; subst hd; exact hc)
+    simpa using this
+  rw [h1]
+  simp only [h2]
+
+/-- pointwise relation between a range and what its printed form parses back to -/
+inductive SameRange : Range → Range → Prop
+  | nil : SameRange [] []
+  | cons {s' s : BoundSet} {r' r : Range} :
+      (s'.beq s = true ∧ Printable s' ∧ ∀ v, s'.within v = s.within v ∧ s'.gate v = s.gate v) →
+      SameRange r' r → SameRange (s' :: r') (s :: r)
+
+theorem boundSetsTail_render (r : Range) (hne : r ≠ []) (hp : ∀ s ∈ r, Printable s) (t : List Char)
+    (ht : Range.render r = some t) :
+    ∃ ls, boundSetsTail ('|' :: '|' :: t) = (ls, []) ∧ SameRange ls.flatten r ∧ Range.render ls.flatten = some t := by
+  induction r generalizing t with
+  | nil => exact absurd rfl hne
+  | cons s rest ih =>
+    cases rest with
+    | nil =>
+      simp only [Range.render] at ht
+      obtain ⟨c, u, hcu, hc⟩ := render_head_not_blank s (hp s (by simp)) t ht
+      rw [boundSetsTail_some (logicalOr_bars t c u hcu hc)]
+      obtain ⟨s', h1, h2, h3, h4, h5⟩ := rangeP_render s (hp s (by simp)) t ht [] (Or.inl rfl)
+      simp only [List.append_nil] at h1
+      rw [h1]
+      simp only
+      rw [boundSetsTail_none (by simp [logicalOr, dropBlanks, span])]
+      refine ⟨[[s']], rfl, ?_, ?_⟩
+      · simp only [List.flatten_cons, List.flatten_nil, List.append_nil]
+        exact .cons ⟨h2, h3, h5⟩ .nil
+      · simpa [Range.render] using h4
+    | cons s2 rest2 =>
+      simp only [Range.render] at ht
+      cases ha : s.render with
+      | none => rw [ha] at ht; cases ht
+      | some a =>
+        cases hb : Range.render (s2 :: rest2) with
+        | none => rw [ha, hb] at ht; cases ht
+        | some b =>
+          rw [ha, hb] at ht
+          simp only [Option.some.injEq] at ht
+          subst ht
+          obtain ⟨c, u, hcu, hc⟩ := render_head_not_blank s (hp s (by simp)) a ha
+          have hcu' : a ++ '|' :: '|' :: b = c :: (u ++ '|' :: '|' :: b) := by rw [hcu]; rfl
+          rw [boundSetsTail_some (logicalOr_bars _ c _ hcu' hc)]
+          obtain ⟨s', h1, h2, h3, h4, h5⟩ := rangeP_render s (hp s (by simp)) a ha ('|' :: '|' :: b)
+            (Or.inr ⟨b, rfl⟩)
+          rw [h1]
+          simp only
+          obtain ⟨ls, g1, g2, g3⟩ := ih (by simp) (fun x hx => hp x (by simp at hx ⊢; right; exact hx)) b hb
+          rw [g1]
+          refine ⟨[s'] :: ls, rfl, ?_, ?_⟩
+          · simp only [List.flatten_cons, List.singleton_append]
+            exact .cons ⟨h2, h3, h5⟩ g2
+          · simp only [List.flatten_cons, List.singleton_append]
+            cases hl : ls.flatten with
+            | nil =>
+              rw [hl] at g2
+              cases g2
+            | cons y ys =>
+              rw [hl] at g3
+              simp only [Range.render, h4, g3]
+
+/-- **the printed form of a printable range parses back** to a range equal to it alternative by
+alternative (as values, `PartialEq`), with the same bounds membership and gate, and the same printed
+form -/
+theorem parse_render (r : Range) (hne : r ≠ []) (hp : ∀ s ∈ r, Printable s) (t : List Char)
+    (ht : Range.render r = some t) :
+    ∃ r', Range.parse t = .ok r' ∧ SameRange r' r ∧ Range.render r' = some t := by
+  cases r with
+  | nil => exact absurd rfl hne
+  | cons s rest =>
+    -- first alternative, then the tail after `||`
+    have hfirst : ∃ a, s.render = some a := by
+      cases rest with
+      | nil => exact ⟨t, by simpa [Range.render] using ht⟩
+      | cons s2 rest2 =>
+        simp only [Range.render] at ht
+        cases ha : s.render with
+        | none => rw [ha] at ht; cases ht
+        | some a => exact ⟨a, rfl⟩
+    obtain ⟨a, ha⟩ := hfirst
+    obtain ⟨c, u, hcu, hc⟩ := render_head_not_blank s (hp s (by simp)) a ha
+    cases rest with
+    | nil =>
+      have hta : t = a := by simpa [Range.render, ha] using ht.symm
+      subst hta
+      obtain ⟨s', h1, h2, h3, h4, h5⟩ := rangeP_render s (hp s (by simp)) t ha [] (Or.inl rfl)
+      simp only [List.append_nil] at h1
+      have hdb : dropBlanks t = t := by
+        subst hcu
+        have := dropBlanks_append [] (c :: u) (by simp) (by intro d hd; simp at hd; subst hd; exact hc)
+        simpa using this
+      refine ⟨[s'], ?_, .cons ⟨h2, h3, h5⟩ .nil, by simpa [Range.render] using h4⟩
+      unfold Range.parse boundSets
+      simp only [hdb, h1]
+      rw [boundSetsTail_none (by simp [logicalOr, dropBlanks, span])]
+      simp
+    | cons s2 rest2 =>
+      simp only [Range.render, ha] at ht
+      cases hb : Range.render (s2 :: rest2) with
+      | none => rw [hb] at ht; cases ht
+      | some b =>
+        rw [hb] at ht
+        simp only [Option.some.injEq] at ht
+        subst ht
+        obtain ⟨s', h1, h2, h3, h4, h5⟩ := rangeP_render s (hp s (by simp)) a ha ('|' :: '|' :: b)
+          (Or.inr ⟨b, rfl⟩)
+        obtain ⟨ls, g1, g2, g3⟩ := boundSetsTail_render (s2 :: rest2) (by simp)
+          (fun x hx => hp x (by simp at hx ⊢; right; exact hx)) b hb
+        have hdb : dropBlanks (a ++ '|' :: '|' :: b) = a ++ '|' :: '|' :: b := by
+          subst hcu
+          have := dropBlanks_append [] (c :: u ++ '|' :: '|' :: b) (by simp)
+            (by intro d hd; simp at hd; subst hd; exact hc)
+          simpa using this
+        refine ⟨s' :: ls.flatten, ?_, .cons ⟨h2, h3, h5⟩ g2, ?_⟩
+        · unfold Range.parse boundSets
+          simp only [hdb, h1, g1]
+          simp
+        · cases hl : ls.flatten with
+          | nil => rw [hl] at g2; cases g2
+          | cons y ys =>
+            rw [hl] at g3
+            simp only [Range.render, h4, g3]
 
 end Semver
